@@ -458,7 +458,7 @@ PROPS = {
               "ModelOptimSillsVario::fit, Model::fitFromVMap. Validity oracle only when the fit returns success (a refusal is acceptable and counted): every sill "
               "matrix symmetric with lambda_min >= -1e-8 trace (own Jacobi eigenvalues), ranges/scales > 0 and finite, every user constraint satisfied within 1e-6, "
               "documented option flags respected, Model::isValid(), save -> reload -> same getters, kriging a small Db with the fitted model returns 0 with finite "
-              "estimates and stdev >= 0; the call ends within 60 s of CPU; non-trivial = nvar >= 2 or >= 1 user constraint or >= 2 directions (fit_vmap: always); "
+              "estimates and stdev >= 0; the call ends within 30 s of CPU; non-trivial = nvar >= 2 or >= 1 user constraint or >= 2 directions (fit_vmap: always); "
               "distinct = hash of (dimensions, directions, structure list, constraints, options, seeds)"),
         assumptions=["a non-zero return of fit / fitFromVMap / model_fitting_sills is an acceptable outcome",
                      "a ConsItem on a parameter that the options remove from the inference is not asserted; a lock asked by the caller counts as set",
